@@ -35,7 +35,7 @@ def plan(tier, seed):
     q = tier == "quick"
     specs = [{"name": "construct", "kind": "construct", "n": 30 if q else 300, "timeout": 1500}]
     for name, (nd, dest, src) in PULSES.items():
-        specs.append({"name": name, "kind": "pulse", "fn": name, "n": {2: 14, 3: 8, 4: 4, 5: 2}[nd] * (1 if q else 8), "timeout": 1800})
+        specs.append({"name": name, "kind": "pulse", "fn": name, "n": {2: 14, 3: 10, 4: 6, 5: 3}[nd] * (1 if q else 8), "timeout": 1800})
     specs.append({"name": "remove-reorder", "kind": "remreo", "n": 30 if q else 300, "timeout": 900})
     return specs
 
@@ -104,6 +104,14 @@ def simplex_props(rng, k, kind, grids=None):
         choices = {1: [[1.0], [0.5], [0.25]], 2: [[0.3, 0.7], [0.25, 0.75], [0.5, 0.5]], 3: [[0.25, 0.25, 0.5], [0.5, 0.25, 0.25]],
                    4: [[0.25, 0.25, 0.25, 0.25], [0.5, 0.125, 0.125, 0.25]]}[k]
         d = np.array(choices[int(rng.integers(len(choices)))], float)
+    elif kind == "decimal":
+        # round decimal proportions (tenths, or twentieths): sums like 0.2+0.2+0.2+0.4 exceed 1 by one ulp in floating point,
+        # so the mixed frequency at the all-ones corner is 1.0000000000000002
+        q = int(rng.choice([10, 10, 20]))
+        a = rng.multinomial(q, np.ones(k + 1) / (k + 1))[:k]
+        d = np.array([int(v) / float(q) for v in a])
+    elif kind == "fifths":
+        d = np.full(k, 0.2)
     elif kind == "zero":
         d = np.zeros(k)
     elif kind == "small":
@@ -162,7 +170,13 @@ def run_construct(spec, rec, PhiManip):
         xx = gen.make_grid(rng, L, kind=gk)
         grids = [xx] * nd
         phi = gen.random_density(rng, (L,) * nd)
-        pk = str(rng.choice(["interior", "vertex", "edge", "boundary", "small"]))
+        pk = str(rng.choice(["interior", "vertex", "edge", "boundary", "small", "decimal", "decimal"]))
+        if ci < 3:
+            nd, pk = ci + 2, "fifths"            # (0.2,), (0.2, 0.2), (0.2, 0.2, 0.2): the plainest values a user would type
+            L = min(L, LCAP[nd])
+            xx = gen.make_grid(rng, L, kind=gk)
+            grids = [xx] * nd
+            phi = gen.random_density(rng, (L,) * nd)
         props = simplex_props(rng, nd - 1, pk) if nd > 1 else []
         desc = {"nd": nd, "L": L, "grid": gk, "props": props, "pkind": pk}
         if not rec.case("con-%d" % ci, desc, nontrivial=(nd == 1 or not all(p in (0.0, 1.0) for p in props))):
@@ -246,7 +260,7 @@ def run_pulse(spec, rec, PhiManip):
         rec.check("pulse-exists", False, site=site)
         return
     k = len(srcs)
-    kinds = ["interior", "interior", "vertex", "edge", "boundary", "small", "interior", "gridpoint"]
+    kinds = ["fifths", "interior", "decimal", "vertex", "edge", "boundary", "small", "decimal", "interior", "gridpoint"]
     for ci in range(spec["n"]):
         rng = rng_for(spec["seed"], "C06pulse", name, ci)
         L = int(rng.integers(5, LCAP[nd] + 1))
